@@ -30,6 +30,8 @@ var effTable = map[string]int{
 	"encoding/json.Marshal": effPure, "encoding/json.MarshalIndent": effPure,
 	"sync/atomic.AddUint64": effElems, "sync/atomic.AddInt32": effElems, "sync/atomic.AddInt64": effElems, "sync/atomic.AddUint32": effElems, "sync/atomic.StoreUint64": effElems, "sync/atomic.StoreInt32": effElems,
 	"sync/atomic.LoadUint64": effPure, "sync/atomic.LoadInt32": effPure,
+	"(encoding/binary.bigEndian).Uint16": effPure, "(encoding/binary.bigEndian).Uint32": effPure, "(encoding/binary.bigEndian).Uint64": effPure,
+	"(encoding/binary.littleEndian).Uint16": effPure, "(encoding/binary.littleEndian).Uint32": effPure, "(encoding/binary.littleEndian).Uint64": effPure,
 }
 
 // preconditions of non-repository callees: minimal length of a slice argument
